@@ -11,6 +11,10 @@
         5 push_repeat/push_zeros: n <= capacity - len      6 push_zeros_front     7 push_slice
         8 truncate     9 erase_front    10 free of a block that is not live (double free)
         11 free with a size different from the allocation   12 debug_assert num_words <= MAX_CAPACITY
+        13 debug_assert! on the operands of an arithmetic routine (add_large_dword: len >= 3, mul_large:
+           both lengths >= 2, shl_dword: dword != 0, shl_one_spilled / with_bit_dword_spilled: n >= DWORD_BITS)
+        14 usize subtraction that would underflow (with_bit_dword_spilled: idx - 2, with_bit_large: idx - len)
+        15 lowest_dword / lowest_dword_mut: len >= 2      16 slice index out of range (rem_large: lhs[..n])
         20.. preconditions of raw copies / transmutes (UB if they failed)      30 ill-typed operand
       [Panic AllocateTooMuch] = the documented panic.  A documented panic raised by an operation after
       its clean-up (unwinding drops the owned buffers) is the value [Thrown r], the machine goes on.
@@ -190,6 +194,7 @@ Definition add_dword (a b : Z) : M_ repr :=
 Definition add_large_dword (b : buffer) (dw : Z) : M_ repr :=
   let n := len (bws b) in let s := val (bws b) + dw in
   let b' := setws b (tow n s) in
+  guard 13 (3 <=? n) ;;;
   b'' <- (if s / Bw ^ n =? 0 then ret b' else push_resizing b' 1) ;; from_buffer b''.
 
 Definition add_large (b : buffer) (rhs : list Z) : M_ repr :=
@@ -302,6 +307,7 @@ Definition mul_large_dword (b : buffer) (dw : Z) : M_ repr :=
 (** mul_large / square_large: the result buffer; the scratch MemoryAllocation (memory.rs) is not modelled *)
 Definition mul_large (lhs rhs : list Z) : M_ repr :=
   let n := len lhs + len rhs in
+  guard 13 ((2 <=? len lhs) && (2 <=? len rhs)) ;;;
   b <- allocate n ;; b1 <- push_repeat b 0 n ;; from_buffer (setws b1 (tow n (val lhs * val rhs))).
 
 Definition mul_mag (a b : targ) : M_ repr :=
@@ -324,9 +330,10 @@ Definition shl_large (b : buffer) (n : Z) : M_ repr :=
   else b1 <- push b 0 ;; b2 <- push_zeros_front b1 sw ;; from_buffer (setws b2 (tow (len (bws b2)) (val (bws b) * 2 ^ n))).
 
 Definition shl_dword (dw n : Z) : M_ repr :=
+  guard 13 (negb (dw =? 0)) ;;;
   if dw * 2 ^ n <? Bw * Bw then ret (from_dword (dw * 2 ^ n))
   else if dw =? 1 then
-    let idx := n / w in b <- allocate (idx + 1) ;; b1 <- push_repeat b 0 idx ;; b2 <- push b1 (2 ^ (n mod w)) ;; from_buffer b2
+    let idx := n / w in guard 13 (2 * w <=? n) ;;; b <- allocate (idx + 1) ;; b1 <- push_repeat b 0 idx ;; b2 <- push b1 (2 ^ (n mod w)) ;; from_buffer b2
   else let sw := n / w in let v := dw * 2 ^ (n mod w) in
     b <- allocate (sw + 3) ;; b1 <- push_repeat b 0 sw ;; b2 <- push b1 (v mod Bw) ;; b3 <- push b2 ((v / Bw) mod Bw) ;;
     b4 <- push b3 (v / Bw ^ 2) ;; from_buffer b4.
@@ -365,12 +372,13 @@ Definition set_bit (a : targ) (n : Z) : M_ repr :=
   | TSmall d | TRefSmall d =>
       if n <? 2 * w then ret (from_dword (Z.lor d (2 ^ n)))
       else let idx := n / w in
+           guard 13 (2 * w <=? n) ;;;
            b <- allocate (idx + 1) ;; b1 <- push b (d mod Bw) ;; b2 <- push b1 (d / Bw) ;;
-           b3 <- push_repeat b2 0 (idx - 2) ;; b4 <- push b3 (2 ^ (n mod w)) ;; from_buffer b4
+           guard 14 (2 <=? idx) ;;; b3 <- push_repeat b2 0 (idx - 2) ;; b4 <- push b3 (2 ^ (n mod w)) ;; from_buffer b4
   | TLarge b =>
       let idx := n / w in
       if idx <? len (bws b) then from_buffer (setws b (tow (len (bws b)) (Z.lor (val (bws b)) (2 ^ n))))
-      else b1 <- ensure_capacity b (idx + 1) ;; b2 <- push_repeat b1 0 (idx - len (bws b1)) ;; b3 <- push b2 (2 ^ (n mod w)) ;; from_buffer b3
+      else b1 <- ensure_capacity b (idx + 1) ;; guard 14 (len (bws b1) <=? idx) ;;; b2 <- push_repeat b1 0 (idx - len (bws b1)) ;; b3 <- push b2 (2 ^ (n mod w)) ;; from_buffer b3
   | TRefLarge _ => bad 30
   end.
 
@@ -381,10 +389,111 @@ Definition clear_bit (a : targ) (n : Z) : M_ repr :=
   | TRefLarge _ => bad 30
   end.
 
+(* ------------------------------------------------------------------ bits.rs: and / or / xor of magnitudes *)
+Definition lowest_dword_of (ws : list Z) : M_ Z := guard 15 (2 <=? len ws) ;;; ret (nth 0 ws 0 + Bw * nth 1 ws 0).
+
+Definition bitand_large (b : buffer) (rhs : list Z) : M_ repr :=
+  b1 <- (if len (bws b) >? len rhs then truncate b (len rhs) else ret b) ;;
+  from_buffer (setws b1 (tow (len (bws b1)) (Z.land (val (bws b1)) (val rhs)))).
+
+Definition and_mag (a b : targ) : M_ repr :=
+  match small_of a, small_of b with
+  | Some x, Some y => ret (from_dword (Z.land x y))
+  | Some x, None => d <- lowest_dword_of (twords b) ;; release b ;;; ret (from_dword (Z.land x d))
+  | None, Some y => d <- lowest_dword_of (twords a) ;; release a ;;; ret (from_dword (Z.land d y))
+  | None, None =>
+      match a, b with
+      | TLarge b0, TLarge b1 =>
+          if len (bws b0) <=? len (bws b1) then r <- bitand_large b0 (bws b1) ;; drop_buffer b1 ;;; ret r
+          else r <- bitand_large b1 (bws b0) ;; drop_buffer b0 ;;; ret r
+      | TLarge b0, TRefLarge w1 => bitand_large b0 w1
+      | TRefLarge w0, TLarge b1 => bitand_large b1 w0
+      | TRefLarge w0, TRefLarge w1 =>
+          if len w0 <=? len w1 then b0 <- buffer_from w0 ;; bitand_large b0 w1 else b1 <- buffer_from w1 ;; bitand_large b1 w0
+      | _, _ => bad 30
+      end
+  end.
+
+(** bitor / bitxor share their buffer handling; f is Z.lor or Z.lxor *)
+Definition bitop_large_dword (f : Z -> Z -> Z) (b : buffer) (dw : Z) : M_ repr :=
+  guard 13 (2 <=? len (bws b)) ;;; guard 15 (2 <=? len (bws b)) ;;;
+  from_buffer (setws b (tow (len (bws b)) (f (val (bws b)) dw))).
+
+Definition bitop_large (f : Z -> Z -> Z) (b : buffer) (rhs : list Z) : M_ repr :=
+  let n := len (bws b) in
+  b1 <- (if len rhs >? n then b' <- ensure_capacity b (len rhs) ;; push_slice b' (skipn (Z.to_nat n) rhs) else ret b) ;;
+  from_buffer (setws b1 (tow (len (bws b1)) (f (val (bws b)) (val rhs)))).
+
+Definition orx_mag (f : Z -> Z -> Z) (a b : targ) : M_ repr :=
+  match small_of a, small_of b with
+  | Some x, Some y => ret (from_dword (f x y))
+  | Some x, None => bb <- own_large b ;; bitop_large_dword f bb x
+  | None, Some y => ba <- own_large a ;; bitop_large_dword f ba y
+  | None, None =>
+      match a, b with
+      | TLarge b0, TLarge b1 =>
+          if len (bws b1) <=? len (bws b0) then r <- bitop_large f b0 (bws b1) ;; drop_buffer b1 ;;; ret r
+          else r <- bitop_large f b1 (bws b0) ;; drop_buffer b0 ;;; ret r
+      | TLarge b0, TRefLarge w1 => bitop_large f b0 w1
+      | TRefLarge w0, TLarge b1 => bitop_large f b1 w0
+      | TRefLarge w0, TRefLarge w1 =>
+          if len w1 <=? len w0 then b0 <- buffer_from w0 ;; bitop_large f b0 w1 else b1 <- buffer_from w1 ;; bitop_large f b1 w0
+      | _, _ => bad 30
+      end
+  end.
+
+(* ------------------------------------------------------------------ div_ops.rs *)
+(** div_rem_in_lhs: lhs = [lhs mod rhs (len rhs words), lhs / rhs], the top quotient word is pushed
+    (push_resizing); the scratch MemoryAllocation is the subject of ScratchModel.v *)
+Definition div_rem_in_lhs (lhs rhs : buffer) : M_ buffer :=
+  let n := len (bws rhs) in let k := len (bws lhs) - n in
+  let q := val (bws lhs) / val (bws rhs) in let r := val (bws lhs) mod val (bws rhs) in
+  push_resizing (setws lhs (tow n r ++ tow k q)) (q / Bw ^ k).
+
+Definition div_large (lhs rhs : buffer) : M_ repr :=
+  l1 <- div_rem_in_lhs lhs rhs ;; l2 <- erase_front l1 (len (bws rhs)) ;; r <- from_buffer l2 ;; drop_buffer rhs ;;; ret r.
+
+Definition rem_large (lhs rhs : buffer) : M_ repr :=
+  l1 <- div_rem_in_lhs lhs rhs ;; guard 16 (len (bws rhs) <=? len (bws l1)) ;;;
+  r <- from_buffer (setws rhs (tow (len (bws rhs)) (val (bws lhs) mod val (bws rhs)))) ;; drop_buffer l1 ;;; ret r.
+
+Definition div_large_dword (b : buffer) (dw : Z) : M_ outcome :=
+  if dw =? 0 then drop_buffer b ;;; ret (Thrown DivideBy0)
+  else done (from_buffer (setws b (tow (len (bws b)) (val (bws b) / dw)))).
+
+Definition div_mag (a b : targ) : M_ outcome :=
+  match small_of a, small_of b with
+  | Some x, Some y => if y =? 0 then ret (Thrown DivideBy0) else ret (Done (from_dword (x / y)))
+  | Some _, None => release b ;;; ret (Done zero)
+  | None, Some y => ba <- own_large a ;; div_large_dword ba y
+  | None, None =>
+      if len (twords b) <=? len (twords a) then la <- own_large a ;; lb <- own_large b ;; done (div_large la lb)
+      else release a ;;; release b ;;; ret (Done zero)
+  end.
+
+(** Buffer::clone_from_slice *)
+Definition clone_from_slice (b : buffer) (src : list Z) : M_ buffer :=
+  if len src <=? bcap b then ret (setws b src) else drop_buffer b ;;; buffer_from src.
+
+Definition rem_mag (a b : targ) : M_ outcome :=
+  match small_of a, small_of b with
+  | Some x, Some y => if y =? 0 then ret (Thrown DivideBy0) else ret (Done (from_dword (x mod y)))
+  | Some x, None => release b ;;; ret (Done (from_dword x))
+  | None, Some y => release a ;;; if y =? 0 then ret (Thrown DivideBy0) else ret (Done (from_dword (val (twords a) mod y)))
+  | None, None =>
+      if len (twords b) <=? len (twords a) then la <- own_large a ;; lb <- own_large b ;; done (rem_large la lb)
+      else match a, b with
+           | TLarge b0, _ => r <- from_buffer b0 ;; release b ;;; ret (Done r)
+           | TRefLarge w0, TLarge b1 => b' <- clone_from_slice b1 w0 ;; done (from_buffer b')
+           | TRefLarge w0, _ => b0 <- buffer_from w0 ;; done (from_buffer b0)
+           | _, _ => bad 30
+           end
+  end.
+
 (* ------------------------------------------------------------------ the pool machine *)
 Inductive opnd := ByVal (i : nat) | ByRef (i : nat) | ByStatic (s : sign) (ws : list Z).
 Inductive ctor := CWords (s : sign) (ws : list Z) | CDword (s : sign) (dw : Z) | COnes (n : Z).
-Inductive binop := BAdd | BSub | BMul | BIAdd | BISub | BIMul.
+Inductive binop := BAdd | BSub | BMul | BIAdd | BISub | BIMul | BAnd | BOr | BXor | BDiv | BRem | BIDiv | BIRem.
 Inductive op :=
 | OCtor (d : nat) (c : ctor)
 | OClone (d : nat) (a : opnd)
@@ -452,6 +561,13 @@ Definition run_bin (f : binop) (s0 : sign) (a : targ) (s1 : sign) (b : targ) : M
              | Negative, Negative => sub_signed b a
              end
   | BIMul => r <- mul_mag a b ;; ret (Done (with_sign r (sign_mul s0 s1)))
+  | BAnd => done (and_mag a b)
+  | BOr => done (orx_mag Z.lor a b)
+  | BXor => done (orx_mag Z.lxor a b)
+  | BDiv => div_mag a b
+  | BRem => rem_mag a b
+  | BIDiv => o <- div_mag a b ;; ret (omap (fun r => with_sign r (sign_mul s0 s1)) o)
+  | BIRem => o <- rem_mag a b ;; ret (omap (fun r => with_sign r s0) o)
   end.
 
 Definition install (s : sign) (ws : list Z) (cap : Z) : M_ repr :=
